@@ -29,7 +29,8 @@ def _witnesses():
     out += ["http2:sibling_progress", "http2:sibling_arrives_while_other_held", "dns:sibling_arrives_while_other_held",
             "http1:aborted", "http2:aborted", "dns:aborted", "http2:arrives_after_kill", "http1:arrives_after_kill"]
     for p in ("http1", "http2"):
-        out += [f"{p}:streamed_intercepted", f"{p}:streamed_killed_in_hook", f"{p}:streamed_end_after_release"]
+        out += [f"{p}:streamed_intercepted", f"{p}:streamed_killed_in_hook", f"{p}:streamed_end_after_release",
+                f"{p}:edit_adds_body", f"{p}:edit_removes_body"]
     return tuple(out)
 
 
@@ -58,26 +59,31 @@ class Check(core.PropertyCheck):
         return {"EditOff": EDIT}
 
     @staticmethod
-    def _cfg(raw_n, raw_user, seq_user, h2_user, flows=2, protos=RAW + PAIRED, h1_str=(1, 2), h2_str=(1, 2)):
-        """Cfg constant of Intercept.tla: per protocol [n messages, flows, user actions, streamable messages]."""
+    def _cfg(raw_n, raw_user, seq_user, h2_user, flows=2, protos=RAW + PAIRED, h1_str=(1, 2), h2_str=(2,),
+             h1_nobody=(1, 2), h2_nobody=(1,)):
+        """Cfg constant of Intercept.tla: per protocol [n messages, flows, user actions, streamable messages,
+        messages that may arrive without body]."""
         cfg = {}
         for p in protos:
             if p in RAW:
-                cfg[p] = {"n": raw_n, "flows": 1, "user": raw_user, "str": frozenset()}
+                cfg[p] = {"n": raw_n, "flows": 1, "user": raw_user, "str": frozenset(), "nobody": frozenset()}
             else:
                 cfg[p] = {"n": 2 * flows, "flows": flows, "user": h2_user if p == "http2" else seq_user,
-                          "str": frozenset(h1_str if p == "http1" else h2_str if p == "http2" else ())}
+                          "str": frozenset(h1_str if p == "http1" else h2_str if p == "http2" else ()),
+                          "nobody": frozenset(h1_nobody if p == "http1" else h2_nobody if p == "http2" else ())}
         return {"Cfg": cfg, "Decisions": frozenset(DECISIONS), "EditOff": EDIT, "StreamReqKillCheck": False}
 
     def model_constants(self, tier):
         # dumped instance (both tiers): raw protocols 2 messages / 3 user actions, dns+http1 two flows / 3 user actions,
-        # http2 (whose streams interleave freely) two flows / 2 user actions; the messages of flow 1 may be streamed
+        # http2 (whose streams interleave freely) two flows / 2 user actions; flow 1 of http1 may be streamed or arrive
+        # without body (request and response), http2: response 2 may be streamed, request 1 may arrive without body
         return self._cfg(2, 3, 3, 2)
 
     def model_runs(self, ctx):
         runs = [ctx.model_check(self.MODEL, self.model_constants(ctx.tier), dump=True)]
         if not ctx.quick:  # larger instances, exhaustive but not dumped
-            runs.append(ctx.model_check(self.MODEL, self._cfg(3, 3, 4, 4, h1_str=(1, 2, 3, 4), h2_str=(1, 2, 3, 4)),
+            runs.append(ctx.model_check(self.MODEL, self._cfg(3, 3, 4, 3, h1_str=(1, 2, 3, 4), h2_str=(1, 2), h1_nobody=(1, 2),
+                                                                    h2_nobody=(1, 2)),
                                         dump=False, tag="_big"))
         return runs
 
@@ -85,21 +91,23 @@ class Check(core.PropertyCheck):
     def _scenario(beh, source="model"):
         st0 = beh[0][2]
         proto = str(st0["proto"])
-        plan, ops, streams = {}, [], []
+        plan, ops, streams, nobody = {}, [], [], []
         paired = proto in PAIRED
         for name, args, _st in beh[1:]:
             if name == "Arrive":
                 n, to, d = int(args[0]), str(args[1]), str(args[2])
                 plan[str(n)] = d
-                if bool(args[3]):
+                if str(args[3]) == "str":
                     streams.append(n)
+                elif str(args[3]) == "nobody":
+                    nobody.append(n)
                 ops.append(["arrive", n, (n + 1) // 2 if paired else 1, to])
             elif name == "Resume":
                 ops.append(["resume", int(args[0])])
             elif name == "Kill":
                 ops.append(["kill", int(args[0])])
             elif name == "EditMsg":
-                ops.append(["edit", int(args[0])])
+                ops.append(["edit", int(args[0]), bool(args[1])])
             elif name == "Run":
                 ops.append(["run"])
         last = beh[-1][2]
@@ -115,7 +123,8 @@ class Check(core.PropertyCheck):
                           and ((int(n) + 1) // 2 if paired else 1) == f)
             flows.append({"f": f, "err": bool(rec["kd"]), "intercepted": bool(rec["ic"]), "waiting": waiting})
         pred = [{"k": "cfg", "proto": proto}] + core.predicted_events(beh) + [{"k": "end", "flows": flows}]
-        return core.Scenario({"proto": proto, "plan": plan, "ops": ops, "streams": streams}, predicted=pred, source=source)
+        return core.Scenario({"proto": proto, "plan": plan, "ops": ops, "streams": streams, "nobody": nobody},
+                             predicted=pred, source=source)
 
     def scenarios(self, ctx, models):
         g = models[0].graph
@@ -128,7 +137,8 @@ class Check(core.PropertyCheck):
             yield self._scenario(b)
         if not ctx.quick:
             for tag, c in (("raw", self._cfg(5, 6, 6, 6, protos=RAW)),
-                           ("paired", self._cfg(5, 6, 6, 6, flows=3, protos=PAIRED, h1_str=range(1, 7), h2_str=range(1, 7)))):
+                           ("paired", self._cfg(5, 6, 6, 6, flows=3, protos=PAIRED, h1_str=range(1, 7), h2_str=range(1, 7),
+                                                 h1_nobody=range(1, 7), h2_nobody=range(1, 7)))):
                 behs, _r = ctx.simulate(self.MODEL, c, num=4000, depth=30, tag="sim_" + tag)
                 for b in behs:
                     yield self._scenario(b, "simulate")
@@ -142,7 +152,8 @@ class Check(core.PropertyCheck):
         from vf import icept
 
         if sc.get("ops") is not None:
-            return icept.run(sc["proto"], sc["plan"], sc["ops"], streams=sc.get("streams", ()))
+            return icept.run(sc["proto"], sc["plan"], sc["ops"], streams=sc.get("streams", ()),
+                             nobody=sc.get("nobody", ()))
         return self._random(sc)
 
     @staticmethod
@@ -155,7 +166,9 @@ class Check(core.PropertyCheck):
         proto, nmax = sc["proto"], sc["n"]
         paired = proto in PAIRED
         plan = {str(n): rng.choice(["pass", "pass", "intercept", "intercept", "kill"]) for n in range(1, nmax + 1)}
-        streams = [n for n in range(1, nmax + 1) if proto in ("http1", "http2") and rng.random() < 0.35]
+        http = proto in ("http1", "http2")
+        streams = [n for n in range(1, nmax + 1) if http and rng.random() < 0.3]
+        nobody = [n for n in range(1, nmax + 1) if http and n not in streams and rng.random() < 0.35]
         state = {"steps": 0}
         ops = []
 
@@ -189,7 +202,7 @@ class Check(core.PropertyCheck):
             for f in drv.flows:
                 cand += [["resume", f], ["kill", f]]
                 if any(drv.flow_of_message(n) == f for n in drv.pending_hooks.values()):
-                    cand += [["edit", f], ["resume", f]]
+                    cand += [["edit", f, True], ["resume", f]] + ([["edit", f, False]] if http else [])
             cand.append(["run"])
             if not cand:
                 return None
@@ -197,6 +210,6 @@ class Check(core.PropertyCheck):
             ops.append(op)
             return op
 
-        tr = icept.run(proto, plan, [], choose=choose, streams=streams)
-        sc["plan_generated"], sc["ops_generated"], sc["streams_generated"] = plan, ops, streams
+        tr = icept.run(proto, plan, [], choose=choose, streams=streams, nobody=nobody)
+        sc["plan_generated"], sc["ops_generated"], sc["streams_generated"], sc["nobody_generated"] = plan, ops, streams, nobody
         return tr
